@@ -59,14 +59,13 @@ theorem submitted_append (a b : List (SpanSet × Token)) : submitted (a ++ b) = 
 
 theorem Dflt.finishCycle {s : Sys} (h : Dflt s) (kept : List (Nat × Ring Cmd)) (buf buf2 : List Cmd) :
     Dflt (s.finishCycle kept buf buf2).1 := by
-  have f0 : (s.finishCycle kept buf buf2).1.coll =
-      (cycleProcess id s.coll (s.deferred.map Cmd.commit ++ buf ++ buf2.filter (fun c => !c.isCommit))).1 := rfl
+  have f0 : (s.finishCycle kept buf buf2).1.coll = (cycleProcess id s.coll (s.cycleBatch buf buf2)).1 := rfl
   have f5 : (s.finishCycle kept buf buf2).1.g =
       if s.coll.hasReporter then
-        { s.g with consumed := (s.deferred.map Cmd.commit ++ buf ++ buf2.filter (fun c => !c.isCommit)) ++ s.g.consumed,
-                   reported := (cycleProcess id s.coll (s.deferred.map Cmd.commit ++ buf ++ buf2.filter (fun c => !c.isCommit))).2.getD [] ++ s.g.reported }
-      else { s.g with discarded := (s.deferred.map Cmd.commit ++ buf ++ buf2.filter (fun c => !c.isCommit)) ++ buf2.filter Cmd.isCommit ++ s.g.discarded } := rfl
-  generalize s.deferred.map Cmd.commit ++ buf ++ buf2.filter (fun c => !c.isCommit) = batch at f0 f5
+        { s.g with consumed := s.cycleBatch buf buf2 ++ s.g.consumed,
+                   reported := (cycleProcess id s.coll (s.cycleBatch buf buf2)).2.getD [] ++ s.g.reported }
+      else { s.g with discarded := s.cycleBatch buf buf2 ++ (s.cycleSplit buf buf2).2 ++ buf2.filter Cmd.isCommit ++ s.g.discarded } := rfl
+  generalize s.cycleBatch buf buf2 = batch at f0 f5
   cases hr : s.coll.hasReporter with
   | false =>
     rw [hr] at f5
@@ -153,27 +152,91 @@ theorem run_dflt (p : Program) (s : Sys) (hp : Program.isDefault p) (h : Dflt s)
 
 /-! ### the whole-program statements -/
 
-/-- **conservation**: for every program and every weight function, accepted = in flight + consumed +
-    discarded (no reporter) + lost at exit (D3) -/
-theorem E2E_conservation (p : Program) (w : Cmd → Nat) :
+/-- **conservation**: for every program and every weight function that counts span sets per token item,
+    accepted = in flight + consumed + discarded (no reporter) + lost at exit (D3) -/
+theorem E2E_conservation (p : Program) (w : Cmd → Nat) (hw : Additive w) :
     let s := (run Sys.init p).1
     wsum w s.g.accepted = s.flow w + (wsum w s.g.consumed + wsum w s.g.discarded + wsum w s.g.lostAtExit) :=
-  (run_chan p Sys.init ChanInv.init).cons w
+  (run_chan p Sys.init ChanInv.init).cons w hw
 
-/-- the same for the multiplicity of a single command -/
-theorem E2E_conservation_count (p : Program) (c : Cmd) :
+theorem count_eq_wsum (c : Cmd) (l : List Cmd) : wsum (fun x => if x = c then 1 else 0) l = l.count c := by
+  induction l with
+  | nil => rfl
+  | cons x xs ih =>
+    simp only [wsum_cons, ih, List.count_cons]
+    by_cases hx : x = c <;> simp [hx] <;> omega
+
+def Cmd.isSubmit : Cmd → Bool
+  | .submit _ _ => true
+  | _ => false
+
+theorem additive_indicator (c : Cmd) (hc : c.isSubmit = false) : Additive (fun x => if x = c then 1 else 0) := by
+  intro sp tok
+  have h1 : (Cmd.submit sp tok = c) = False := by
+    apply eq_false; intro e; rw [← e] at hc; cases hc
+  have h2 : ∀ it : TokenItem, (Cmd.submit sp [it] = c) = False := by
+    intro it; apply eq_false; intro e; rw [← e] at hc; cases hc
+  simp only [h1, h2, if_false]
+  clear h1 h2
+  induction tok with
+  | nil => rfl
+  | cons x xs ih => simpa using ih
+
+/-- the same for the multiplicity of a single start / finish / cancel command -/
+theorem E2E_conservation_count (p : Program) (c : Cmd) (hc : c.isSubmit = false) :
     let s := (run Sys.init p).1
     s.g.accepted.count c = s.flow (fun x => if x = c then 1 else 0)
       + (s.g.consumed.count c + s.g.discarded.count c + s.g.lostAtExit.count c) := by
-  have hcount : ∀ l : List Cmd, wsum (fun x => if x = c then 1 else 0) l = l.count c := by
-    intro l
-    induction l with
-    | nil => rfl
-    | cons x xs ih =>
-      simp only [wsum_cons, ih, List.count_cons]
-      by_cases hx : x = c <;> simp [hx] <;> omega
-  have := E2E_conservation p (fun x => if x = c then 1 else 0)
-  simp only [hcount] at this
+  have := E2E_conservation p (fun x => if x = c then 1 else 0) (additive_indicator c hc)
+  simp only [count_eq_wsum] at this
+  exact this
+
+/-- the number of copies of the collection `col` (span set, trace id, parent id) that a command submits -/
+def colW (col : Collection) : Cmd → Nat
+  | .submit sp tok => (tok.filter fun it => decide ((⟨sp, it.traceId, it.parentId⟩ : Collection) = col)).length
+  | _ => 0
+
+theorem colW_additive (col : Collection) : Additive (colW col) := by
+  intro sp tok
+  simp only [colW]
+  induction tok with
+  | nil => rfl
+  | cons x xs ih =>
+    by_cases hx : (⟨sp, x.traceId, x.parentId⟩ : Collection) = col <;> simp [List.filter, hx] at ih ⊢ <;> omega
+
+theorem wsum_colW (col : Collection) (l : List Cmd) : wsum (colW col) l = (submitted (submitsOf l)).count col := by
+  induction l with
+  | nil => rfl
+  | cons x xs ih =>
+    cases x with
+    | submit sp tok =>
+      have e : submitsOf (Cmd.submit sp tok :: xs) = (sp, tok) :: submitsOf xs := rfl
+      rw [wsum_cons, ih, e]
+      simp only [submitted, List.flatMap_cons, List.count_append, colW]
+      congr 1
+      clear ih e
+      induction tok with
+      | nil => rfl
+      | cons y ys ihy =>
+        simp only [List.map_cons, List.count_cons, List.filter]
+        by_cases hy : (⟨sp, y.traceId, y.parentId⟩ : Collection) = col
+        · simp only [hy, decide_true, List.length_cons, beq_self_eq_true, if_true]
+          omega
+        · have : ((⟨sp, y.traceId, y.parentId⟩ : Collection) == col) = false := by simp [hy]
+          simp only [hy, decide_false, this, Bool.false_eq_true, if_false]
+          omega
+    | start id => simpa [submitsOf, colW] using ih
+    | drop id => simpa [submitsOf, colW] using ih
+    | commit id => simpa [submitsOf, colW] using ih
+
+/-- … and for the multiplicity of every single span-set copy (span set, trace id, parent id) -/
+theorem E2E_conservation_collections (p : Program) (col : Collection) :
+    let s := (run Sys.init p).1
+    (submitted (submitsOf s.g.accepted)).count col = s.flow (colW col)
+      + ((submitted (submitsOf s.g.consumed)).count col + (submitted (submitsOf s.g.discarded)).count col
+         + (submitted (submitsOf s.g.lostAtExit)).count col) := by
+  have := E2E_conservation p (colW col) (colW_additive col)
+  simp only [wsum_colW] at this
   exact this
 
 /-- an overflow list only ever holds finish / cancel signals -/
@@ -189,10 +252,6 @@ theorem E2E_default_reports_consumed (p : Program) (hp : Program.isDefault p) :
   (run_dflt p Sys.init hp Dflt.init).rep
 
 /-! ### after a flush nothing is in flight -/
-
-def Cmd.isSubmit : Cmd → Bool
-  | .submit _ _ => true
-  | _ => false
 
 theorem wsum_zero_of_signals (w : Cmd → Nat) (hw : ∀ c, c.isSignal = true → w c = 0) (l : List Cmd)
     (hl : ∀ c ∈ l, c.isSignal = true) : wsum w l = 0 := by
@@ -250,13 +309,12 @@ theorem HasRep.of_step {s s' : Sys} (h : HasRep s) (st : Step s s') : HasRep s' 
 
 theorem HasRep.finishCycle {s : Sys} (h : HasRep s) (kept : List (Nat × Ring Cmd)) (buf buf2 : List Cmd) :
     HasRep (s.finishCycle kept buf buf2).1 := by
-  have f0 : (s.finishCycle kept buf buf2).1.coll =
-      (cycleProcess id s.coll (s.deferred.map Cmd.commit ++ buf ++ buf2.filter (fun c => !c.isCommit))).1 := rfl
+  have f0 : (s.finishCycle kept buf buf2).1.coll = (cycleProcess id s.coll (s.cycleBatch buf buf2)).1 := rfl
   have f5 : (s.finishCycle kept buf buf2).1.g =
       if s.coll.hasReporter then
-        { s.g with consumed := (s.deferred.map Cmd.commit ++ buf ++ buf2.filter (fun c => !c.isCommit)) ++ s.g.consumed,
-                   reported := (cycleProcess id s.coll (s.deferred.map Cmd.commit ++ buf ++ buf2.filter (fun c => !c.isCommit))).2.getD [] ++ s.g.reported }
-      else { s.g with discarded := (s.deferred.map Cmd.commit ++ buf ++ buf2.filter (fun c => !c.isCommit)) ++ buf2.filter Cmd.isCommit ++ s.g.discarded } := rfl
+        { s.g with consumed := s.cycleBatch buf buf2 ++ s.g.consumed,
+                   reported := (cycleProcess id s.coll (s.cycleBatch buf buf2)).2.getD [] ++ s.g.reported }
+      else { s.g with discarded := s.cycleBatch buf buf2 ++ (s.cycleSplit buf buf2).2 ++ buf2.filter Cmd.isCommit ++ s.g.discarded } := rfl
   refine ⟨?_, ?_⟩
   · rw [f0, cycleProcess_hasReporter]; exact h.has
   · rw [f5, h.has]; exact h.none
@@ -326,30 +384,35 @@ theorem run_snoc (s : Sys) (p : Program) (t : Nat) (op : Op) :
     simp only [List.cons_append, run]
     exact ih _
 
-/-- with no cycle in progress and every ring empty, only finish / cancel signals are in flight -/
+/-- with no cycle in progress, every ring empty and nothing carried over, only finish / cancel signals
+    are in flight -/
 theorem ChanInv.quiescent_flow {s : Sys} (h : ChanInv s) (hc : s.cyc = none) (hr : ∀ e ∈ s.rxs, e.2.q = [])
+    (hcar : s.carried = [])
     (w : Cmd → Nat) (hw : ∀ c, c.isSignal = true → w c = 0) : s.flow w = 0 := by
   unfold Sys.flow
-  rw [hc]
+  rw [hc, hcar]
   have h1 : cycW w none s.rxs = 0 := ringsW_zero w s.rxs hr
   have h2 := pendW_zero w hw s.threads h.sig
   have h3 : wsum w (s.deferred.map Cmd.commit) = 0 :=
     wsum_zero_of_signals w hw _ (by intro c hc; simp only [List.mem_map] at hc; obtain ⟨i, _, rfl⟩ := hc; rfl)
+  simp only [wsum_nil]
   omega
 
-theorem count_eq_wsum (c : Cmd) (l : List Cmd) : wsum (fun x => if x = c then 1 else 0) l = l.count c := by
-  induction l with
-  | nil => rfl
-  | cons x xs ih =>
-    simp only [wsum_cons, ih, List.count_cons]
-    by_cases hx : x = c <;> simp [hx] <;> omega
+/-- a whole cycle carries nothing over (its second pass is empty) -/
+theorem Sys.cycle_carried (s : Sys) : s.cycle.1.carried = [] := by
+  show (if s.coll.hasReporter then (s.cycleSplit (drainAll s.rxs).2 []).2 else []) = []
+  split
+  · rfl
+  · rfl
 
-/-- **after `flush()` returns** (with no stepped cycle in progress when it is called), every command that is not
-    a finish / cancel signal — every span set, every trace start — that a channel ever accepted has been handed
-    to the processing loops (or drained while no reporter was installed): none is in flight, none was lost -/
-theorem E2E_flush_delivers (p : Program) (t : Nat) (hq : (run Sys.init p).1.cyc = none) (c : Cmd) (hc : c.isSignal = false) :
+/-- **after `flush()` returns** (with no stepped cycle in progress when it is called), for every weight that
+    counts span sets per token item and ignores finish / cancel signals: everything a channel ever accepted
+    has been handed to the processing loops (or drained while no reporter was installed) — nothing is in
+    flight, nothing was lost -/
+theorem E2E_flush_delivers (p : Program) (t : Nat) (hq : (run Sys.init p).1.cyc = none)
+    (w : Cmd → Nat) (hadd : Additive w) (hw : ∀ c, c.isSignal = true → w c = 0) :
     let s := (run Sys.init (p ++ [(t, .flush)])).1
-    s.g.accepted.count c = s.g.consumed.count c + s.g.discarded.count c := by
+    wsum w s.g.accepted = wsum w s.g.consumed + wsum w s.g.discarded := by
   intro s
   have hs : s = ((run Sys.init p).1.cycle).1 := by
     show (run Sys.init (p ++ [(t, .flush)])).1 = _
@@ -358,42 +421,36 @@ theorem E2E_flush_delivers (p : Program) (t : Nat) (hq : (run Sys.init p).1.cyc 
   have hchan : ChanInv s := by
     show ChanInv (run Sys.init (p ++ [(t, .flush)])).1
     exact run_chan _ _ ChanInv.init
-  have hw : ∀ x : Cmd, x.isSignal = true → (fun x => if x = c then 1 else 0) x = 0 := by
-    intro x hx
-    have : x ≠ c := by intro e; rw [e, hc] at hx; cases hx
-    simp [this]
-  have hflow := hchan.quiescent_flow (by rw [hs]; rfl) (by rw [hs]; exact drainAll_empty _) _ hw
-  have hlost := wsum_zero_of_signals _ hw _ hchan.lost
-  have := hchan.cons (fun x => if x = c then 1 else 0)
-  simp only [Ghost.out, count_eq_wsum] at this hflow hlost
+  have hflow := hchan.quiescent_flow (by rw [hs]; rfl) (by rw [hs]; exact drainAll_empty _)
+    (by rw [hs]; exact Sys.cycle_carried _) w hw
+  have hlost := wsum_zero_of_signals w hw _ hchan.lost
+  have := hchan.cons w hadd
+  simp only [Ghost.out] at this
   omega
 
-theorem perm_submitsOf_of_count (a b : List Cmd)
-    (h : ∀ c : Cmd, c.isSignal = false → a.count c = b.count c) : (submitsOf a).Perm (submitsOf b) := by
-  have hf : (a.filter Cmd.isSubmit).Perm (b.filter Cmd.isSubmit) := by
-    rw [List.perm_iff_count]
-    intro c
-    cases hc : c.isSubmit with
-    | false =>
-      have hz : ∀ l : List Cmd, (l.filter Cmd.isSubmit).count c = 0 := by
-        intro l
-        apply List.count_eq_zero.mpr
-        intro hm
-        have := (List.mem_filter.mp hm).2
-        rw [hc] at this
-        cases this
-      rw [hz, hz]
-    | true =>
-      rw [List.count_filter hc, List.count_filter hc]
-      exact h c (by cases c <;> simp_all [Cmd.isSubmit, Cmd.isSignal])
-  have e : ∀ l : List Cmd, submitsOf l = (l.filter Cmd.isSubmit).filterMap (fun | .submit s t => some (s, t) | _ => none) := by
-    intro l
-    induction l with
-    | nil => rfl
-    | cons x xs ih =>
-      cases x <;> simp [submitsOf, Cmd.isSubmit, List.filter, List.filterMap] at ih ⊢ <;> exact ih
-  rw [e a, e b]
-  exact hf.filterMap _
+/-- after a flush every trace start a channel accepted has been consumed -/
+theorem E2E_flush_delivers_starts (p : Program) (t : Nat) (hq : (run Sys.init p).1.cyc = none) (id : Nat) :
+    let s := (run Sys.init (p ++ [(t, .flush)])).1
+    s.g.accepted.count (.start id) = s.g.consumed.count (.start id) + s.g.discarded.count (.start id) := by
+  have := E2E_flush_delivers p t hq (fun x => if x = .start id then 1 else 0) (additive_indicator _ rfl)
+    (by intro c hc; cases c <;> simp_all [Cmd.isSignal])
+  simp only [count_eq_wsum] at this
+  exact this
+
+/-- after a flush every span-set copy a channel accepted has been consumed: the collections submitted by the
+    accepted commands are, up to order, those submitted by the consumed (and discarded) ones -/
+theorem E2E_flush_delivers_collections (p : Program) (t : Nat) (hq : (run Sys.init p).1.cyc = none) :
+    let s := (run Sys.init (p ++ [(t, .flush)])).1
+    (submitted (submitsOf s.g.accepted)).Perm
+      (submitted (submitsOf s.g.consumed) ++ submitted (submitsOf s.g.discarded)) := by
+  intro s
+  rw [List.perm_iff_count]
+  intro col
+  have := E2E_flush_delivers p t hq (colW col) (colW_additive col)
+    (by intro c hc; cases c <;> simp_all [Cmd.isSignal, colW])
+  simp only [wsum_colW] at this
+  rw [List.count_append]
+  exact this
 
 /-- **C01, end to end, default configuration.**  For every program whose first operation installs a reporter
     with the default configuration and which never switches to `cancelable(true)`: when a `flush()` (called
@@ -414,20 +471,17 @@ theorem E2E_default_flush_exactly_once (t0 : Nat) (p : Program) (t : Nat) (hp : 
     · exact hp x hx
     · intro e; cases e
   have hrep := E2E_default_reports_consumed _ hp'
-  have hdel := E2E_flush_delivers ((t0, .setReporter false) :: p) t hq
+  have hdel := E2E_flush_delivers_collections ((t0, .setReporter false) :: p) t hq
   have hnone : s.g.discarded = [] := by
     show (run Sys.init ((t0, .setReporter false) :: p ++ [(t, .flush)])).1.g.discarded = []
     simp only [List.cons_append, run]
     exact (run_hasRep _ _ ⟨rfl, rfl⟩).none
-  have hperm : (submitsOf s.g.accepted).Perm (submitsOf s.g.consumed) := by
-    apply perm_submitsOf_of_count
-    intro c hc
-    have h1 : s.g.accepted.count c = s.g.consumed.count c + s.g.discarded.count c := hdel c hc
+  have hperm : (submitted (submitsOf s.g.accepted)).Perm (submitted (submitsOf s.g.consumed)) := by
+    have h1 : (submitted (submitsOf s.g.accepted)).Perm
+        (submitted (submitsOf s.g.consumed) ++ submitted (submitsOf s.g.discarded)) := hdel
     rw [hnone] at h1
-    simpa using h1
+    simpa [submitsOf, submitted] using h1
   refine List.Perm.trans hrep ?_
-  apply List.Perm.flatMap_right
-  unfold submitted
   exact (hperm.flatMap_right _).symm
 
 /-! ### non-vacuity: a concrete program meets the hypotheses, and something is delivered -/
